@@ -321,6 +321,10 @@ def run_impl(d):
         return impl_sched(d)
     if k == "extra":
         return impl_extra(d)
+    if k == "extend":
+        return impl_extend(d)
+    if k == "sharedattr":
+        return impl_sharedattr(d)
     raise ValueError(k)
 
 
@@ -420,6 +424,100 @@ def impl_extra(d):
     for qi in d["its"]:
         iso.append(_rows_or_exc(*_extra_build(d)[qi]))
     return [log, iso, warm]
+
+
+# ---- a rule query extended AFTER it was evaluated (refinement / alternative / next_rule added later), then evaluated again
+def _extend_build(d, full: bool):
+    from krrood.entity_query_language.entity import let, entity, inference
+    from krrood.entity_query_language.quantify_entity import an
+    from krrood.entity_query_language.conclusion import Add
+    C = _classes()
+    objs = _objects(d["W"], d["A"])
+    x = let(C["P"], [objs[i] for i in d["W"][0]], name="v0")
+    views = inference(C["V1"])()
+    q = an(entity(views, x.a >= d["c1"]))
+    with q:
+        Add(views, inference(C["V1"])(p=x, tag=0))
+    if full:
+        _extend_add(d, q, x, views)
+    return q, x, views
+
+
+def _extend_add(d, q, x, views):
+    from krrood.entity_query_language.entity import inference
+    from krrood.entity_query_language.conclusion import Add
+    from krrood.entity_query_language.rule import refinement, alternative, next_rule
+    V1 = _classes()["V1"]
+    with q:
+        ctx = {"ref": refinement, "alt": alternative, "next": next_rule}[d["ext"]]
+        cond = (x.a <= d["c2"]) if d["ext"] == "alt" else (x.a >= d["c2"])
+        with ctx(cond):
+            Add(views, inference(V1)(p=x, tag=1))
+
+
+def impl_extend(d):
+    """-> [rows of each evaluation before the extension, rows of each evaluation after it, isolated base rows, isolated full rows]"""
+    ext = lambda r: [r.tag, r.p.ident]
+    q, x, views = _extend_build(d, False)
+    before = [_rows_or_exc(q, ext) for _ in range(d["n_before"])]
+    _extend_add(d, q, x, views)
+    after = [_rows_or_exc(q, ext) for _ in range(d["n_after"])]
+    iso_base = _rows_or_exc(_extend_build(d, False)[0], ext)
+    iso_full = _rows_or_exc(_extend_build(d, True)[0], ext)
+    return [before, after, iso_base, iso_full]
+
+
+def extend_verdict(d, impl) -> Tuple[str, Any]:
+    before, after, iso_base, iso_full = impl
+    exp = [[iso_base] * d["n_before"], [iso_full] * d["n_after"]]
+    return ("ok" if [before, after] == exp else "violation"), exp
+
+
+# ---- ONE Attribute node used by two queries in different roles: bare condition (truthiness) / comparison operand
+def _sharedattr_build(d):
+    import operator as op
+    from krrood.entity_query_language.entity import let, entity
+    from krrood.entity_query_language.quantify_entity import an
+    C = _classes()
+    objs = _objects(d["W"], d["A"])
+    x = let(C["P"], [objs[i] for i in d["W"][0]], name="v0")
+    xa = x.a
+    f = {"ge": op.ge, "le": op.le, "ne": op.ne, "lt": op.lt}[d["op"]]
+    return [an(entity(x, xa)), an(entity(x, f(xa, d["c"])))]
+
+
+def impl_sharedattr(d):
+    """-> [rows of every evaluation of the history, isolated rows of the bare query, isolated rows of the comparison query]"""
+    ext = lambda r: [r.ident]
+    qs = _sharedattr_build(d)
+    hist = [_rows_or_exc(qs[i], ext) for i in d["evals"]]
+    iso = [_rows_or_exc(_sharedattr_build(d)[i], ext) for i in (0, 1)]
+    return [hist, iso[0], iso[1]]
+
+
+def sharedattr_verdict(d, impl) -> Tuple[str, Any]:
+    """K_shared_node_roles (finding C03-e, the cross-query face of C01-e): DomainMapping refreshes its falsity flag only when it is
+    a logical operand or `self is self._conditions_root_`, and `_conditions_root_` is a cached_property of the NODE: the role the
+    node has in the query evaluated first is remembered for good.  Prediction: first role 'bare' -> in the comparison query every
+    element with a falsy attribute is dropped; first role 'comparison' -> the bare query no longer filters at all."""
+    hist, iso_bare, iso_cmp = impl
+    exp = [[iso_bare, iso_cmp][i] for i in d["evals"]]
+    if hist == exp:
+        return "ok", exp
+    amap = dict((i, a) for i, a in d["A"])
+    first = d["evals"][0]
+    all_rows = [[i] for i in _dedup(d["W"][0])]
+    pred = []
+    for i in d["evals"]:
+        if i == first:
+            pred.append([iso_bare, iso_cmp][i])
+        elif i == 1:      # comparison query, the node believes it is the condition root
+            pred.append([r for r in iso_cmp if amap.get(r[0], 0)])
+        else:             # bare query, the node believes it is an operand
+            pred.append(all_rows)
+    if hist == pred and len(set(d["evals"])) == 2:
+        return "known:K_shared_node_roles", exp
+    return "violation", exp
 
 
 def extra_expected(d, iso) -> List[Any]:
@@ -826,6 +924,35 @@ def empty_and_warm_sched_cases(tier) -> List[dict]:
     return out
 
 
+def gen_extend_cases(tier, rng) -> List[dict]:
+    out = []
+    W, A = [[10, 11, 12, 13]], [[10, 0], [11, 1], [12, 2], [13, 3]]
+    for ext in ("ref", "alt", "next"):
+        for c1 in (0, 1):
+            for c2 in (0, 1, 2, 3):
+                for nb in (1, 2):
+                    out.append({"kind": "extend", "W": W, "A": A, "ext": ext, "c1": c1, "c2": c2, "n_before": nb, "n_after": 3,
+                                "src": "extend-rule"})
+    for _ in range(40 if tier == "quick" else 400):
+        W_, A_ = gen_world(rng, 1, 4, p_empty=0.05)
+        out.append({"kind": "extend", "W": W_, "A": A_, "ext": rng.choice(["ref", "alt", "next"]), "c1": rng.randint(0, 2),
+                    "c2": rng.randint(0, 3), "n_before": rng.randint(1, 2), "n_after": rng.randint(2, 3), "src": "extend-rule-random"})
+    return out
+
+
+def gen_sharedattr_cases(tier, rng) -> List[dict]:
+    out = []
+    W, A = [[10, 11, 12, 13]], [[10, 0], [11, 1], [12, 0], [13, 3]]
+    for evals in ([0, 1], [1, 0], [0, 1, 0, 1], [1, 0, 1, 0], [0, 0, 1], [1, 1, 0], [0, 0], [1, 1]):
+        for op_, c in (("ge", 0), ("le", 1), ("ne", 3), ("lt", 3)):
+            out.append({"kind": "sharedattr", "W": W, "A": A, "op": op_, "c": c, "evals": evals, "src": "shared-attr-roles"})
+    for _ in range(60 if tier == "quick" else 600):
+        W_, A_ = gen_world(rng, 1, 4, p_empty=0.05)
+        out.append({"kind": "sharedattr", "W": W_, "A": A_, "op": rng.choice(["ge", "le", "ne", "lt"]), "c": rng.randint(0, 3),
+                    "evals": [rng.randint(0, 1) for _ in range(rng.randint(2, 4))], "src": "shared-attr-roles-random"})
+    return out
+
+
 def gen_rsched_cases(tier, rng) -> List[dict]:
     """evaluate() iterators of query OBJECTS, rule queries among them (the selector node is shared by the evaluations of one object)"""
     out = []
@@ -1039,7 +1166,9 @@ def run(tier: str, seed: int, replay=None) -> int:
                 "complete evaluation, then every word over two further iterators of the same object / a shared variable (length <=6/9); "
                 "rsched: iterators of query objects with rule queries -- every word over {next0,next1} up to length 7/10 for one rule object twice, "
                 "two rule objects, rule + plain query, two different rules; abandonment at every point; seeded random objects/iterators; "
-                "extra: or_/not_/truthiness/rule shapes and exists/for_all/not_(exists) shapes vs the isolated result of a fresh query, incl. for "
+                "extend: a rule query evaluated, then extended by a refinement / alternative / next_rule, then evaluated three more times, vs fresh "
+                "queries; sharedattr: one Attribute node used as a bare condition in one query and as a comparison operand in another, every "
+                "order of evaluations; extra: or_/not_/truthiness/rule shapes and exists/for_all/not_(exists) shapes vs the isolated result of a fresh query, incl. for "
                 "every shape all interleavings (length <=6/8) of two evaluations of the SAME query object after a complete warm-up evaluation. distinct = distinct case description; non-trivial = at least one row is delivered")
     ok_spec, log = core.coq_make(["Base/Sx.vo", "Eql/DomainCacheSpec.vo", "Eql/ReevalSpec.vo", "Eql/ReevalSpecSx.vo"])
     rep.oblige("build:spec", ok_spec, "" if ok_spec else core.first_error(log))
@@ -1061,7 +1190,8 @@ def run(tier: str, seed: int, replay=None) -> int:
         descrs = [replay["case"]]
     else:
         descrs = (corpus + gen_cache_cases(tier, rng.fork(1)) + gen_hist_cases(tier, rng.fork(2))
-                  + gen_sched_cases(tier, rng.fork(3)) + gen_extra_cases(tier, rng.fork(4)) + gen_rsched_cases(tier, rng.fork(5)))
+                  + gen_sched_cases(tier, rng.fork(3)) + gen_extra_cases(tier, rng.fork(4)) + gen_rsched_cases(tier, rng.fork(5))
+                  + gen_extend_cases(tier, rng.fork(6)) + gen_sharedattr_cases(tier, rng.fork(7)))
     impls = []
     for d in descrs:
         try:
@@ -1106,14 +1236,18 @@ def run(tier: str, seed: int, replay=None) -> int:
         flat = json.dumps(impl)
         rep.count(key, "[" in flat[1:] if kind != "cache" else any(isinstance(v, int) and v >= 0 for v in impl))
         bump(f"{kind}:{d.get('src', d.get('share', 'corpus' if '_file' in d else 'random'))}")
-        if kind == "extra":
-            verdict, exp = extra_verdict(d, impl)
+        if kind in ("extra", "extend", "sharedattr"):
+            try:
+                verdict, exp = {"extra": extra_verdict, "extend": extend_verdict, "sharedattr": sharedattr_verdict}[kind](d, impl)
+            except Exception:  # noqa  (construction failed: impl is an error marker)
+                verdict, exp = "violation", None
             if verdict == "ok":
                 continue
             if verdict.startswith("known:"):
-                known_counts[verdict[6:] + " (extra, inexact)"] = known_counts.get(verdict[6:] + " (extra, inexact)", 0) + 1
+                lab = verdict[6:] + (" (extra, inexact)" if kind == "extra" else " (predicted exactly by the class rule)")
+                known_counts[lab] = known_counts.get(lab, 0) + 1
                 continue
-            bad.append((d, impl, f"extra shape: log differs from the isolated result and is not explained by a listed class; expected {exp}"))
+            bad.append((d, impl, f"{kind} shape: differs from the isolated result and is not explained by a listed class; expected {exp}"))
             continue
         if i not in codes:
             continue
@@ -1168,11 +1302,15 @@ def run(tier: str, seed: int, replay=None) -> int:
         except Exception as e:  # noqa
             rep.oblige(f"witness:{f.fid}", False, f"{f.witness}: {e}")
             continue
-        if w["case"]["kind"] == "extra":
+        if w["case"]["kind"] in ("extra", "extend", "sharedattr"):
             # no Coq Spec for these shapes: the witness must give the isolated result of a fresh query
-            verdict, exp = extra_verdict(w["case"], got)
-            if f.kind == "open" and verdict != "ok":
+            verdict, exp = {"extra": extra_verdict, "extend": extend_verdict, "sharedattr": sharedattr_verdict}[w["case"]["kind"]](w["case"], got)
+            if f.kind == "open" and verdict.startswith("known:"):
                 rep.known(f)
+            elif f.kind == "open" and verdict == "ok":
+                rep.note(f"finding {f.fid} no longer reproduces on its witness (appears repaired)")
+            elif f.kind == "open":
+                bad.append((w["case"], got, f"witness of {f.fid} now fails differently from its class prediction; isolated: {exp}"))
             elif f.kind != "open" and verdict != "ok":
                 bad.append((w["case"], got, f"regression of fixed finding {f.fid}: expected {exp}"))
             continue
@@ -1203,7 +1341,7 @@ def run(tier: str, seed: int, replay=None) -> int:
              "C03_sched_exhausted_is_hist (machine = whole-evaluation model); refuted: C03_refuted_rule_object_twice (open finding C03-b2). The "
              "machine itself is a hand model tied to the implementation by the enumerated / random schedules of this check"}
     samples = []
-    for kind in ("cache", "hist", "sched", "rsched", "extra"):
+    for kind in ("cache", "hist", "sched", "rsched", "extra", "extend", "sharedattr"):
         ks = [i for i, d in enumerate(descrs) if d["kind"] == kind and "_file" not in d]
         for i in ks[:: max(1, len(ks) // 2)][:2]:
             samples.append({"case": descrs[i], "impl": impls[i]})
